@@ -30,20 +30,20 @@ type ShapeCase struct {
 
 // ShapeObs is the observation of one instantiated case.
 type ShapeObs struct {
-	ID        int    `json:"id"`
-	Method    string `json:"method"`
-	Path      string `json:"path"`
-	Body      string `json:"body"`
-	Status    int    `json:"status"`
-	BodyLen   int    `json:"bodyLen"`
-	JSONOK    bool   `json:"jsonOK"`    // the response body is well-formed JSON (or empty where no body is due)
-	ErrShape  bool   `json:"errShape"`  // a 4xx body carries errorCode / errorMessage
-	Unchanged bool   `json:"unchanged"` // pg.Dump snapshot of every table equal before/after
-	Resp      string `json:"resp"`
+	ID        int      `json:"id"`
+	Method    string   `json:"method"`
+	Path      string   `json:"path"`
+	Body      string   `json:"body"`
+	Status    int      `json:"status"`
+	BodyLen   int      `json:"bodyLen"`
+	JSONOK    bool     `json:"jsonOK"`    // the response body is well-formed JSON (or empty where no body is due)
+	ErrShape  bool     `json:"errShape"`  // a 4xx body carries errorCode / errorMessage
+	Unchanged bool     `json:"unchanged"` // pg.Dump snapshot of every table equal before/after
+	Resp      string   `json:"resp"`
 	Diff      []string `json:"diff,omitempty"`
-	Skip      string `json:"skip,omitempty"`         // the template has no such field (model / harness mismatch)
-	Incon     string `json:"inconclusive,omitempty"` // unsupported SQL in pgmodel
-	Ms        int64  `json:"ms"`
+	Skip      string   `json:"skip,omitempty"`         // the template has no such field (model / harness mismatch)
+	Incon     string   `json:"inconclusive,omitempty"` // unsupported SQL in pgmodel
+	Ms        int64    `json:"ms"`
 }
 
 type template struct {
@@ -73,6 +73,9 @@ func shapeTemplates() map[string]template {
 	txPostings := `{"postings":[{"source":"world","destination":"carol","asset":"USD","amount":5}],"timestamp":"2030-01-01T00:00:09Z","reference":"rx","metadata":{"k":"v"},"accountMetadata":{"carol":{"role":"x"}}}`
 	txScript := `{"script":{"plain":` + strconv.Quote(validScript) + `,"vars":{"m":"USD 5","dst":"carol"}},"timestamp":"2030-01-01T00:00:09Z","reference":"ry","metadata":{"k":"v"}}`
 	txScriptObj := `{"script":{"plain":` + strconv.Quote(validScript) + `,"vars":{"m":{"asset":"USD","amount":5},"dst":"carol"}},"metadata":{"k":"v"}}`
+	// two variables resolved from balances of the same account (a shape that once left a nil amount in the machine)
+	balScript := "vars {\n  monetary $a = balance(@alice, USD)\n  monetary $b = balance(@alice, EUR/2)\n}\nsend $a (\n  source = @alice\n  destination = @bob\n)\n"
+	txBalVars := `{"script":{"plain":` + strconv.Quote(balScript) + `,"vars":{}},"metadata":{"k":"v"}}`
 	v1Postings := `{"postings":[{"source":"world","destination":"carol","asset":"USD","amount":5}],"timestamp":"2030-01-01T00:00:09Z","reference":"rx","metadata":{"k":"v"}}`
 	bulk := `[{"action":"CREATE_TRANSACTION","ik":"b1","data":{"postings":[{"source":"world","destination":"carol","asset":"USD","amount":5}],"metadata":{"k":"v"}}},` +
 		`{"action":"ADD_METADATA","data":{"targetType":"ACCOUNT","targetId":"alice","metadata":{"k":"v"}}},` +
@@ -83,39 +86,40 @@ func shapeTemplates() map[string]template {
 	filter := `{"$and":[{"$match":{"address":"alice"}},{"$gte":{"balance[USD]":0}}]}`
 	t := map[string]template{
 		// ---- v2 writes
-		"v2/tx_create":        {"POST", "/v2/{ledger}/transactions", q(), txPostings, pp()},
-		"v2/tx_create_script": {"POST", "/v2/{ledger}/transactions", q(), txScript, pp()},
-		"v2/tx_create_varobj": {"POST", "/v2/{ledger}/transactions", q(), txScriptObj, pp()},
-		"v2/tx_revert":        {"POST", "/v2/{ledger}/transactions/{id}/revert", q("force", "false", "atEffectiveDate", "false"), `{"metadata":{"k":"v"}}`, pp()},
-		"v2/tx_meta_add":      {"POST", "/v2/{ledger}/transactions/{id}/metadata", q(), `{"k":"v"}`, pp()},
-		"v2/tx_meta_del":      {"DELETE", "/v2/{ledger}/transactions/{id}/metadata/{key}", q(), "", pp()},
-		"v2/acct_meta_add":    {"POST", "/v2/{ledger}/accounts/{address}/metadata", q(), `{"k":"v"}`, pp()},
-		"v2/acct_meta_del":    {"DELETE", "/v2/{ledger}/accounts/{address}/metadata/{key}", q(), "", pp()},
-		"v2/bulk":             {"POST", "/v2/{ledger}/_bulk", q("atomic", "true", "parallel", "false", "continueOnFailure", "false"), bulk, pp()},
-		"v2/ledger_create":    {"POST", "/v2/{ledger}", q(), `{"bucket":"b2","metadata":{"k":"v"},"features":{"HASH_LOGS":"SYNC"}}`, map[string]string{"ledger": "newl"}},
-		"v2/ledger_meta":      {"PUT", "/v2/{ledger}/metadata", q(), `{"k":"v"}`, pp()},
-		"v2/schema_insert":    {"POST", "/v2/{ledger}/schemas/{version}", q(), schema, pp()},
+		"v2/tx_create":         {"POST", "/v2/{ledger}/transactions", q(), txPostings, pp()},
+		"v2/tx_create_script":  {"POST", "/v2/{ledger}/transactions", q(), txScript, pp()},
+		"v2/tx_create_varobj":  {"POST", "/v2/{ledger}/transactions", q(), txScriptObj, pp()},
+		"v2/tx_create_balvars": {"POST", "/v2/{ledger}/transactions", q(), txBalVars, pp()},
+		"v2/tx_revert":         {"POST", "/v2/{ledger}/transactions/{id}/revert", q("force", "false", "atEffectiveDate", "false"), `{"metadata":{"k":"v"}}`, pp()},
+		"v2/tx_meta_add":       {"POST", "/v2/{ledger}/transactions/{id}/metadata", q(), `{"k":"v"}`, pp()},
+		"v2/tx_meta_del":       {"DELETE", "/v2/{ledger}/transactions/{id}/metadata/{key}", q(), "", pp()},
+		"v2/acct_meta_add":     {"POST", "/v2/{ledger}/accounts/{address}/metadata", q(), `{"k":"v"}`, pp()},
+		"v2/acct_meta_del":     {"DELETE", "/v2/{ledger}/accounts/{address}/metadata/{key}", q(), "", pp()},
+		"v2/bulk":              {"POST", "/v2/{ledger}/_bulk", q("atomic", "true", "parallel", "false", "continueOnFailure", "false"), bulk, pp()},
+		"v2/ledger_create":     {"POST", "/v2/{ledger}", q(), `{"bucket":"b2","metadata":{"k":"v"},"features":{"HASH_LOGS":"SYNC"}}`, map[string]string{"ledger": "newl"}},
+		"v2/ledger_meta":       {"PUT", "/v2/{ledger}/metadata", q(), `{"k":"v"}`, pp()},
+		"v2/schema_insert":     {"POST", "/v2/{ledger}/schemas/{version}", q(), schema, pp()},
 		// ---- v2 reads
-		"v2/tx_list":      {"GET", "/v2/{ledger}/transactions", q("pageSize", "5", "expand", "volumes", "pit", "2030-01-01T00:01:00Z", "order", "effective", "reverse", "false", "sort", "id:desc"), "", pp()},
-		"v2/tx_list_q":    {"GET", "/v2/{ledger}/transactions", q("query", `{"$match":{"account":"alice"}}`), "", pp()},
-		"v2/tx_count":     {"HEAD", "/v2/{ledger}/transactions", q("pit", "2030-01-01T00:01:00Z"), "", pp()},
-		"v2/tx_read":      {"GET", "/v2/{ledger}/transactions/{id}", q("expand", "volumes", "pit", "2030-01-01T00:01:00Z"), "", pp()},
-		"v2/acct_list":    {"GET", "/v2/{ledger}/accounts", q("pageSize", "5", "expand", "volumes", "pit", "2030-01-01T00:01:00Z"), "", pp()},
-		"v2/acct_list_q":  {"GET", "/v2/{ledger}/accounts", q("query", filter), "", pp()},
-		"v2/acct_list_b":  {"GET", "/v2/{ledger}/accounts", q(), filter, pp()},
-		"v2/acct_count":   {"HEAD", "/v2/{ledger}/accounts", q(), "", pp()},
-		"v2/acct_read":    {"GET", "/v2/{ledger}/accounts/{address}", q("expand", "volumes", "pit", "2030-01-01T00:01:00Z"), "", pp()},
-		"v2/logs_list":    {"GET", "/v2/{ledger}/logs", q("pageSize", "5"), "", pp()},
-		"v2/logs_list_q":  {"GET", "/v2/{ledger}/logs", q("query", `{"$gte":{"date":"2030-01-01T00:00:00Z"}}`), "", pp()},
-		"v2/volumes":      {"GET", "/v2/{ledger}/volumes", q("pageSize", "5", "groupBy", "1", "pit", "2030-01-01T00:01:00Z", "oot", "2030-01-01T00:00:00Z", "insertionDate", "false"), "", pp()},
-		"v2/volumes_q":    {"GET", "/v2/{ledger}/volumes", q("query", `{"$match":{"account":"alice"}}`), "", pp()},
-		"v2/agg_balances": {"GET", "/v2/{ledger}/aggregate/balances", q("pit", "2030-01-01T00:01:00Z", "useInsertionDate", "false"), "", pp()},
+		"v2/tx_list":        {"GET", "/v2/{ledger}/transactions", q("pageSize", "5", "expand", "volumes", "pit", "2030-01-01T00:01:00Z", "order", "effective", "reverse", "false", "sort", "id:desc"), "", pp()},
+		"v2/tx_list_q":      {"GET", "/v2/{ledger}/transactions", q("query", `{"$match":{"account":"alice"}}`), "", pp()},
+		"v2/tx_count":       {"HEAD", "/v2/{ledger}/transactions", q("pit", "2030-01-01T00:01:00Z"), "", pp()},
+		"v2/tx_read":        {"GET", "/v2/{ledger}/transactions/{id}", q("expand", "volumes", "pit", "2030-01-01T00:01:00Z"), "", pp()},
+		"v2/acct_list":      {"GET", "/v2/{ledger}/accounts", q("pageSize", "5", "expand", "volumes", "pit", "2030-01-01T00:01:00Z"), "", pp()},
+		"v2/acct_list_q":    {"GET", "/v2/{ledger}/accounts", q("query", filter), "", pp()},
+		"v2/acct_list_b":    {"GET", "/v2/{ledger}/accounts", q(), filter, pp()},
+		"v2/acct_count":     {"HEAD", "/v2/{ledger}/accounts", q(), "", pp()},
+		"v2/acct_read":      {"GET", "/v2/{ledger}/accounts/{address}", q("expand", "volumes", "pit", "2030-01-01T00:01:00Z"), "", pp()},
+		"v2/logs_list":      {"GET", "/v2/{ledger}/logs", q("pageSize", "5"), "", pp()},
+		"v2/logs_list_q":    {"GET", "/v2/{ledger}/logs", q("query", `{"$gte":{"date":"2030-01-01T00:00:00Z"}}`), "", pp()},
+		"v2/volumes":        {"GET", "/v2/{ledger}/volumes", q("pageSize", "5", "groupBy", "1", "pit", "2030-01-01T00:01:00Z", "oot", "2030-01-01T00:00:00Z", "insertionDate", "false"), "", pp()},
+		"v2/volumes_q":      {"GET", "/v2/{ledger}/volumes", q("query", `{"$match":{"account":"alice"}}`), "", pp()},
+		"v2/agg_balances":   {"GET", "/v2/{ledger}/aggregate/balances", q("pit", "2030-01-01T00:01:00Z", "useInsertionDate", "false"), "", pp()},
 		"v2/agg_balances_q": {"GET", "/v2/{ledger}/aggregate/balances", q("query", `{"$match":{"address":"alice"}}`), "", pp()},
-		"v2/ledger_list":  {"GET", "/v2", q("pageSize", "5"), "", pp()},
-		"v2/ledger_read":  {"GET", "/v2/{ledger}", q(), "", pp()},
-		"v2/stats":        {"GET", "/v2/{ledger}/stats", q(), "", pp()},
-		"v2/schema_list":  {"GET", "/v2/{ledger}/schemas", q("pageSize", "5"), "", pp()},
-		"v2/schema_read":  {"GET", "/v2/{ledger}/schemas/{version}", q(), "", pp()},
+		"v2/ledger_list":    {"GET", "/v2", q("pageSize", "5"), "", pp()},
+		"v2/ledger_read":    {"GET", "/v2/{ledger}", q(), "", pp()},
+		"v2/stats":          {"GET", "/v2/{ledger}/stats", q(), "", pp()},
+		"v2/schema_list":    {"GET", "/v2/{ledger}/schemas", q("pageSize", "5"), "", pp()},
+		"v2/schema_read":    {"GET", "/v2/{ledger}/schemas/{version}", q(), "", pp()},
 		// ---- v1 writes
 		"v1/tx_create":        {"POST", "/{ledger}/transactions", q("preview", "false"), v1Postings, pp()},
 		"v1/tx_create_script": {"POST", "/{ledger}/transactions", q(), txScript, pp()},
@@ -126,19 +130,19 @@ func shapeTemplates() map[string]template {
 		"v1/acct_meta_add":    {"POST", "/{ledger}/accounts/{address}/metadata", q(), `{"k":"v"}`, pp()},
 		"v1/acct_meta_del":    {"DELETE", "/{ledger}/accounts/{address}/metadata/{key}", q(), "", pp()},
 		// ---- v1 reads
-		"v1/tx_list":      {"GET", "/{ledger}/transactions", q("pageSize", "5", "reference", "p1", "account", "alice", "source", "world", "destination", "alice", "startTime", "2030-01-01T00:00:00Z", "endTime", "2030-01-01T00:01:00Z", "metadata[k]", "v"), "", pp()},
-		"v1/tx_list_after": {"GET", "/{ledger}/transactions", q("after", "10"), "", pp()},
+		"v1/tx_list":         {"GET", "/{ledger}/transactions", q("pageSize", "5", "reference", "p1", "account", "alice", "source", "world", "destination", "alice", "startTime", "2030-01-01T00:00:00Z", "endTime", "2030-01-01T00:01:00Z", "metadata[k]", "v"), "", pp()},
+		"v1/tx_list_after":   {"GET", "/{ledger}/transactions", q("after", "10"), "", pp()},
 		"v1/logs_list_after": {"GET", "/{ledger}/logs", q("after", "10"), "", pp()},
-		"v1/tx_count":     {"HEAD", "/{ledger}/transactions", q("account", "alice"), "", pp()},
-		"v1/tx_read":      {"GET", "/{ledger}/transactions/{id}", q(), "", pp()},
-		"v1/acct_list":    {"GET", "/{ledger}/accounts", q("pageSize", "5", "address", "alice", "balance", "0", "balanceOperator", "gte", "metadata[role]", "v", "after", "zzz"), "", pp()},
-		"v1/acct_count":   {"HEAD", "/{ledger}/accounts", q("address", "alice"), "", pp()},
-		"v1/acct_read":    {"GET", "/{ledger}/accounts/{address}", q(), "", pp()},
-		"v1/logs_list":    {"GET", "/{ledger}/logs", q("pageSize", "5", "startTime", "2030-01-01T00:00:00Z", "endTime", "2030-01-01T00:01:00Z"), "", pp()},
-		"v1/balances":     {"GET", "/{ledger}/balances", q("pageSize", "5", "address", "alice"), "", pp()},
-		"v1/agg_balances": {"GET", "/{ledger}/aggregate/balances", q("address", "alice"), "", pp()},
-		"v1/stats":        {"GET", "/{ledger}/stats", q(), "", pp()},
-		"v1/info":         {"GET", "/{ledger}/_info", q(), "", pp()},
+		"v1/tx_count":        {"HEAD", "/{ledger}/transactions", q("account", "alice"), "", pp()},
+		"v1/tx_read":         {"GET", "/{ledger}/transactions/{id}", q(), "", pp()},
+		"v1/acct_list":       {"GET", "/{ledger}/accounts", q("pageSize", "5", "address", "alice", "balance", "0", "balanceOperator", "gte", "metadata[role]", "v", "after", "zzz"), "", pp()},
+		"v1/acct_count":      {"HEAD", "/{ledger}/accounts", q("address", "alice"), "", pp()},
+		"v1/acct_read":       {"GET", "/{ledger}/accounts/{address}", q(), "", pp()},
+		"v1/logs_list":       {"GET", "/{ledger}/logs", q("pageSize", "5", "startTime", "2030-01-01T00:00:00Z", "endTime", "2030-01-01T00:01:00Z"), "", pp()},
+		"v1/balances":        {"GET", "/{ledger}/balances", q("pageSize", "5", "address", "alice"), "", pp()},
+		"v1/agg_balances":    {"GET", "/{ledger}/aggregate/balances", q("address", "alice"), "", pp()},
+		"v1/stats":           {"GET", "/{ledger}/stats", q(), "", pp()},
+		"v1/info":            {"GET", "/{ledger}/_info", q(), "", pp()},
 	}
 	return t
 }
@@ -375,17 +379,17 @@ var boundary = map[string]string{
 	// cursors
 	"cursor:garbage": "!!!", "cursor:b64_garbage": b64("not json"), "cursor:b64_array": b64("[1,2]"), "cursor:b64_null": b64("null"),
 	"cursor:b64_empty_obj": b64("{}"), "cursor:b64_wrongtypes": b64(`{"offset":"x","pageSize":"y","order":"z","column":1}`),
-	"cursor:b64_neg_pagesize": b64(`{"offset":0,"pageSize":-5,"order":0,"column":"id"}`),
-	"cursor:b64_huge_pagesize": b64(`{"offset":0,"pageSize":100000000000,"order":0,"column":"id"}`),
-	"cursor:b64_huge_offset":   b64(`{"offset":18446744073709551615,"pageSize":5,"order":0,"column":"id"}`),
-	"cursor:b64_unknown_column": b64(`{"pageSize":5,"order":1,"column":"nonexistent","paginationID":3,"bottom":1}`),
-	"cursor:b64_sql_column":     b64(`{"pageSize":5,"order":1,"column":"id; drop table x","paginationID":3}`),
-	"cursor:b64_bad_order":      b64(`{"pageSize":5,"order":7,"column":"id","paginationID":3}`),
+	"cursor:b64_neg_pagesize":      b64(`{"offset":0,"pageSize":-5,"order":0,"column":"id"}`),
+	"cursor:b64_huge_pagesize":     b64(`{"offset":0,"pageSize":100000000000,"order":0,"column":"id"}`),
+	"cursor:b64_huge_offset":       b64(`{"offset":18446744073709551615,"pageSize":5,"order":0,"column":"id"}`),
+	"cursor:b64_unknown_column":    b64(`{"pageSize":5,"order":1,"column":"nonexistent","paginationID":3,"bottom":1}`),
+	"cursor:b64_sql_column":        b64(`{"pageSize":5,"order":1,"column":"id; drop table x","paginationID":3}`),
+	"cursor:b64_bad_order":         b64(`{"pageSize":5,"order":7,"column":"id","paginationID":3}`),
 	"cursor:b64_bad_pagination_id": b64(`{"pageSize":5,"order":1,"column":"id","paginationID":"abc"}`),
-	"cursor:b64_bad_filter":     b64(`{"offset":0,"pageSize":5,"order":0,"column":"id","options":{"qb":{"$foo":{"a":1}}}}`),
-	"cursor:b64_bad_pit":        b64(`{"offset":0,"pageSize":5,"order":0,"column":"id","options":{"pit":"garbage"}}`),
-	"cursor:b64_bad_expand":     b64(`{"offset":0,"pageSize":5,"order":0,"column":"id","options":{"expand":["nope"]}}`),
-	"cursor:std_b64": base64.StdEncoding.EncodeToString([]byte(`{"offset":0,"pageSize":5}`)),
+	"cursor:b64_bad_filter":        b64(`{"offset":0,"pageSize":5,"order":0,"column":"id","options":{"qb":{"$foo":{"a":1}}}}`),
+	"cursor:b64_bad_pit":           b64(`{"offset":0,"pageSize":5,"order":0,"column":"id","options":{"pit":"garbage"}}`),
+	"cursor:b64_bad_expand":        b64(`{"offset":0,"pageSize":5,"order":0,"column":"id","options":{"expand":["nope"]}}`),
+	"cursor:std_b64":               base64.StdEncoding.EncodeToString([]byte(`{"offset":0,"pageSize":5}`)),
 	// filters (value of the `query` parameter / body of list routes)
 	"filter:not_json": "{not json", "filter:array_root": "[1]", "filter:string_root": `"x"`, "filter:number_root": "3",
 	"filter:unknown_op": `{"$foo":{"address":"a"}}`, "filter:unknown_field": `{"$match":{"nonexistent":"a"}}`,
